@@ -365,7 +365,67 @@ func runC13(c *core.Ctx) {
 				c.Report("pure.frame", name+"|return-before-defer", rs.Ret.Pos(), name+" can return successfully before the frame-restoring defer is registered: the caller continues with the callee's local variables / regex captures")
 			}
 		}
-		// the frame is replaced: a store of a fresh LocalVariables to i.localVars that precedes user code
+		// what the defer puts back must be what was there on entry: the saved value is loaded from the field before any
+		// store to that field in this function
+		for _, field := range []string{"localVars", "RegexMatchedValues"} {
+			var stores []*ssa.Store
+			var saves []*ssa.UnOp
+			mc := restore.Common().Value.(*ssa.MakeClosure)
+			for _, b := range fn.Blocks {
+				for _, in := range b.Instrs {
+					switch t := in.(type) {
+					case *ssa.Store:
+						if fa, isFA := t.Addr.(*ssa.FieldAddr); isFA && core.FieldOf(fa) != nil && core.FieldOf(fa).Name() == field {
+							stores = append(stores, t)
+						}
+					case *ssa.UnOp:
+						fa, isFA := t.X.(*ssa.FieldAddr)
+						if t.Op != token.MUL || !isFA || core.FieldOf(fa) == nil || core.FieldOf(fa).Name() != field || t.Referrers() == nil {
+							continue
+						}
+						// does this load end up in a variable the restoring closure captured?
+						for _, r := range *t.Referrers() {
+							if st, isSt := r.(*ssa.Store); isSt && st.Val == ssa.Value(t) {
+								for _, bind := range mc.Bindings {
+									if bind == st.Addr {
+										saves = append(saves, t)
+									}
+								}
+							}
+						}
+						for _, bind := range mc.Bindings {
+							if bind == ssa.Value(t) {
+								saves = append(saves, t)
+							}
+						}
+					}
+				}
+			}
+			key := name + "|save:" + field
+			if len(saves) == 0 {
+				ok = false
+				c.Report("pure.frame", key, restore.Pos(), name+" restores "+field+" from something that was not loaded from that field on entry")
+				continue
+			}
+			late := false
+			for _, sv := range saves {
+				for _, st := range stores {
+					if st.Block() == sv.Block() {
+						if core.InstrDominates(st, sv) {
+							late = true
+						}
+					} else if core.Reaches(st.Block(), sv.Block()) {
+						late = true
+					}
+				}
+			}
+			if late {
+				ok = false
+				c.Report("pure.frame", key, saves[0].Pos(), fmt.Sprintf("%s saves %s after it has already replaced it with the callee's fresh value: the deferred restore puts the callee's (empty) value back and the caller's %s are lost after the call", name, field, field))
+			} else {
+				c.Discharge("pure.frame", key, saves[0].Pos(), "saved before the field is replaced")
+			}
+		}
 		if ok {
 			c.Discharge("pure.frame", name, restore.Pos(), "restoring defer dominates every return whose error may be nil")
 		}
